@@ -83,6 +83,9 @@ pub struct Case {
     pub delivery: Delivery,
     /// the script reads in a `jasi` loop instead of a straight-line sequence
     pub looped: bool,
+    /// every second call stores its line in a variable that is never used (and prints nothing):
+    /// the line must be consumed all the same
+    pub discard: bool,
     pub build: Build,
 }
 
@@ -131,6 +134,7 @@ impl Case {
             "final_newline": self.final_newline,
             "delivery": delivery,
             "looped": self.looped,
+            "discard": self.discard,
             "build": self.build.name(),
         })
     }
@@ -159,6 +163,7 @@ impl Case {
             final_newline: j.get("final_newline")?.as_bool()?,
             delivery,
             looped: j.get("looped")?.as_bool()?,
+            discard: j.get("discard").and_then(J::as_bool).unwrap_or(false),
             build: Build::parse(j.get("build")?.as_str()?)?,
         })
     }
@@ -183,9 +188,19 @@ fn call_count(text: &str) -> usize {
     text.split('\n').count() + EXTRA_CALLS
 }
 
-fn script(calls: usize, looped: bool) -> String {
+fn script(calls: usize, looped: bool, discard: bool) -> String {
     let mut s = String::new();
-    if looped {
+    if discard {
+        for k in 0..calls {
+            if k % 2 == 1 {
+                s.push_str(&format!("make skipped{k} get read_line(\"\")\n"));
+                continue;
+            }
+            s.push_str(if k == 0 { "make l get read_line(\"\")\n" } else { "l get read_line(\"\")\n" });
+            s.push_str("shout(\"[\" add l add \"]\")\n");
+            s.push_str("shout(l.len())\n");
+        }
+    } else if looped {
         s.push_str("make i get 0\n");
         s.push_str(&format!("jasi (i small pass {calls}) start\n"));
         s.push_str("    make l get read_line(\"\")\n");
@@ -280,13 +295,16 @@ pub fn check_case(case: &Case) -> Outcome {
         return Outcome::Discard("naija binary missing");
     }
     let text = case.text();
-    let calls = call_count(&text);
-    let want = expected_lines(&text, calls);
+    let all_calls = call_count(&text);
+    let want_all = expected_lines(&text, all_calls);
+    // with `discard` only the even-numbered calls print their line
+    let want: Vec<&str> = if case.discard { want_all.iter().copied().step_by(2).collect() } else { want_all };
+    let calls = want.len();
     let Ok(dir) = TempDir::new("c17") else {
         return Outcome::Discard("cannot create temp dir");
     };
     let script_path = dir.file("echo.ns");
-    if std::fs::write(&script_path, script(calls, case.looped)).is_err() {
+    if std::fs::write(&script_path, script(all_calls, case.looped, case.discard)).is_err() {
         return Outcome::Discard("cannot write script");
     }
     let bytes = text.as_bytes();
@@ -336,7 +354,20 @@ pub fn check_case(case: &Case) -> Outcome {
     }
 
     // How far did it get? (leading records that match the expectation, byte for byte)
-    let actual: &[u8] = &out.stdout;
+    let mut actual: &[u8] = &out.stdout;
+    if case.discard && calls > 0 {
+        // the never-used variables earn "Unused variable" warnings, printed before the program
+        // runs: the records start where the first expected record (or, failing that, the first
+        // line that opens a record) begins
+        let first = record(want[0]);
+        let at = actual
+            .windows(first.len().max(1))
+            .position(|w| w == first.as_bytes())
+            .or_else(|| actual.windows(2).position(|w| w == b"\n[").map(|i| i + 1));
+        if let Some(i) = at {
+            actual = &actual[i..];
+        }
+    }
     let mut pos = 0;
     let mut k = 0;
     while k < calls {
@@ -652,9 +683,9 @@ fn lines_strategy(stage: Stage) -> BoxedStrategy<Vec<LineSpec>> {
 }
 
 fn case_strategy(stage: Stage, build: Build) -> impl Strategy<Value = Case> {
-    (lines_strategy(stage), prop::bool::weighted(0.65), delivery_strategy(), any::<bool>()).prop_map(
-        move |(lines, final_newline, dspec, looped)| {
-            let mut case = Case { lines, final_newline, delivery: Delivery::File, looped, build };
+    (lines_strategy(stage), prop::bool::weighted(0.65), delivery_strategy(), any::<bool>(), prop::bool::weighted(0.2)).prop_map(
+        move |(lines, final_newline, dspec, looped, discard)| {
+            let mut case = Case { lines, final_newline, delivery: Delivery::File, looped, discard, build };
             let text = case.text();
             case.delivery = resolve_delivery(dspec, &text);
             case
